@@ -21,7 +21,7 @@ META = {
             "encoded bytes).",
     "reach": {"oracle_comparisons": 500, "consumption_checks": 500,
               "identity_checks": 500, "strings:non_ascii": 50,
-              "#type_names_used": 20, "failed_encodes": 100, "via_ir_save_load": 20},
+              "#type_names_used": 20, "failed_encodes": 100, "failed_decodes": 200, "via_ir_save_load": 20},
     "assumptions": [
         "value domain = values representable in this API's decoded form: "
         "set elements / mapping keys hashable and NaN-free, 'float' values "
@@ -120,6 +120,8 @@ def run(ctx):
             ctx.count("cases")
             if rnd.random() < 0.08:
                 mon.failed_encode(case, t, v)
+            if rnd.random() < 0.15:
+                mon.failed_decode(case, t, v)
             raw = mon.check_roundtrip(case, t, v, pool)
             note_coverage(ctx, t, v, raw)
             if t[1] or len(raw) > 1:
